@@ -211,7 +211,9 @@ def math_filter(_filter: FilterT) -> FilterT:
 
         try:
             return _filter(val, *args, **kwargs)
-        except TypeError as err:
+        except (TypeError, ValueError, ArithmeticError) as err:
+            # ValueError and ArithmeticError cover infinities and NaN, which
+            # can't be rounded or used in decimal arithmetic.
             raise FilterArgumentError(err, token=None) from err
 
     return wrapper
